@@ -10,11 +10,12 @@ MANIFEST = {
     "text": "Theorems (all lists, unbounded, any hash): folding Append over a list yields root = LIP-0031 batch root (split at the "
             "largest power of two < n), size = length and append path = roots of the perfect sub-trees of the binary expansion; "
             "the (repaired) CalculateRootFromAppendPath predicts exactly the state Append produces; the original code is refuted by a "
-            "computed witness. VerifyProof (faithful calculatePathNodes model) is SOUND for leaf claims for every size 1..2^29 and any number "
-            "of claims under an injective branch hash (frontier invariant); GenerateProof+VerifyProof completeness and Update through a "
-            "proof are proved for one leaf (every size), several at once are partial; reload = saved state (codec round trip assumed); "
-            "right witnesses are not proved. All of it is also tied to the Go code by running both on every case (idxs, sibling hashes, "
-            "verdicts, roots) and by the declarative oracle (mroot of the (modified) list; honest proofs verify, tamperings rejected).",
+            "computed witness. On the faithful transcription of the index arithmetic, for every size 1..2^29: VerifyProof is SOUND for any "
+            "number of leaf claims (injective branch hash); GenerateProof+VerifyProof is COMPLETE for any set of leaf positions; Update "
+            "through a proof yields the root of the modified list for any index set; the right witness of any position and the append "
+            "path of the left part reconstruct the root; reload = saved state (codec round trip assumed). Outside the proofs: resolving "
+            "query hashes to positions (known finding for repeated values) and the node store, tied by running Go and model on every case "
+            "(idxs, sibling hashes, verdicts, roots, witnesses, update/append scripts on lists with duplicates) and by the oracle.",
     "note": "Trusted: Coq kernel + vm_compute, in-Coq SHA-256 (checked on FIPS vectors), fidelity of the hand model as sampled by the "
             "correspondence, Go harness and Python glue. SHA-256 collision freeness is a hypothesis of the soundness theorems only.",
 }
